@@ -1,63 +1,138 @@
-# kills (hand-made mutants of /repo that this check reports): see bottom of file
+# C12 - mailbox deliveries are complete or absent: maildir atomic, mbox rolled back.
+#
+# kills (hand-made mutants of /repo in a scratch worktree; each was reported as VIOLATION with a
+# native replay that reproduced, rc 1):
+#   mbox_content : gfrom() no longer skips leading '>' (">From " lines not quoted);
+#                  mailfile() no longer writes the '>' for a From_ line
+#   mbox_faults  : `if (flaglocked) seek_trunc(fd,pos)` removed from writeerrs;
+#                  seek_end/seek_cur moved above lock_ex (pos taken before the lock);
+#                  return value of fsync(fd) ignored in mailfile()
+#   maildir_child: link() moved above fsync()/close(); result of link() ignored (exit 0 after a
+#                  failed link); substdio_flush() before fsync() removed
+#   maildir_parent: wait_crashed() test removed from maildir()
+#   ufline       : '\n' dropped from the sanitising test in main() (space and tab only)
 from vlib import Obl, Prog
 
-MBOX_UNITS = ["gfrom.c", "open_append.c", "lock_ex.c", "substdio.c", "error_str.c",
-              "stralloc_pend.c"]
-MDIR_UNITS = ["open_excl.c", "wait_pid.c", "fmt_str.c", "fmt_strn.c", "fmt_ulong.c", "error_temp.c", "error_str.c", "byte_copy.c", "substdio.c"]
+MBOX_UNITS = ["gfrom.c", "open_append.c", "lock_ex.c", "substdio.c", "error_str.c", "stralloc_pend.c"]
+MBOX_SYS = ["_exit", "lseek", "open", "flock", "fsync", "ftruncate", "close", "alarm"]
+MDIR_UNITS = ["open_excl.c", "wait_pid.c", "fmt_str.c", "fmt_strn.c", "fmt_ulong.c", "error_temp.c", "error_str.c",
+              "byte_copy.c", "substdio.c"]
 MDIR_SYS = ["_exit", "lseek", "fork", "waitpid", "chdir", "getpid", "gethostname", "time", "sleep", "alarm", "open",
             "fsync", "close", "link", "unlink"]
-MBOX_SYS = ["_exit", "lseek", "open", "flock", "fsync", "ftruncate", "close", "alarm"]
+UF_UNITS = ["sgetopt.c", "subgetopt.c", "myctime.c", "datetime.c", "fmt_str.c", "fmt_uint.c", "fmt_uint0.c", "fmt_ulong.c",
+            "stralloc_cat.c", "stralloc_catb.c", "stralloc_cats.c", "stralloc_copy.c", "stralloc_opyb.c", "stralloc_opys.c",
+            "stralloc_pend.c", "byte_copy.c", "byte_rchr.c", "str_chr.c", "str_rchr.c", "case_lowerb.c", "substdio.c"]
+
+IDEAL = "substdio_put/bput/flush/get, getln: ideal byte streams (lib/ideal_substdio.c, lib/ideal_getln.c), dispatched on the descriptor; contract proved on the real substdio/getln by the C20 layer-0 lemmas"
+STRERR = "strerr_warn/strerr_die: the text is dropped, strerr_die(e,...) = _exit(e)"
+EXIT = "_exit: records the status, runs the end-of-run assertions, ends the path"
+
+
+def w_content(p):
+    n = p["N"]
+    return (["delivered"] + (["partial_last_line"] if n >= 1 else []) + (["from_line_quoted"] if n >= 5 else [])
+            + (["gt_from_line_quoted", "from_on_second_line"] if n >= 6 else []) + (["gtgt_from_line_quoted"] if n >= 7 else []))
 
 
 def obligations(tier):
-    ns = list(range(0, 7)) if tier == "quick" else list(range(0, 9))
+    quick = tier == "quick"
     local = Prog("qmail-local.c", nomain=True)
+    mbox = dict(progs=[local], repo=MBOX_UNITS, lib=["ideal_substdio.c", "ideal_getln.c", "arena_stralloc.c"],
+                sysrename=MBOX_SYS,
+                functions=["qmail-local.c:mailfile", "qmail-local.c:temp_rewind", "qmail-local.c:temp_slowlock", "gfrom.c:gfrom",
+                           "open_append.c:open_append", "lock_ex.c:lock_ex", "seek.h:seek_set/seek_end/seek_cur/seek_trunc",
+                           "substdio.c:substdio_fdbuf", "stralloc_pend.c:stralloc_append"],
+                stubs=[IDEAL, STRERR, EXIT,
+                       "open/flock/lseek/ftruncate/fsync/close/alarm, sig_alarmcatch/sig_alarmdefault: model of one mbox file "
+                       "{length, offset, opened, lock attempted/granted, truncated, closed}; the alarm handler is called from "
+                       "inside flock when the lock is never granted",
+                       "stralloc_ready/readyplus: arena (messline only)"])
+    mdir = dict(progs=[local], repo=MDIR_UNITS, sysrename=MDIR_SYS,
+                functions=["qmail-local.c:maildir", "qmail-local.c:maildir_child", "qmail-local.c:tryunlinktmp",
+                           "qmail-local.c:sigalrm", "qmail-local.c:temp_rewind/temp_fork/temp_childcrashed",
+                           "open_excl.c:open_excl", "wait_pid.c:wait_pid", "fmt_str.c", "fmt_strn.c", "fmt_ulong.c",
+                           "error_temp.c:error_temp", "now.h:now", "wait.h:wait_crashed/wait_exitcode"],
+                stubs=["substdio_put/copy/flush: buffered ideal stream, lengths only (pending counter, may be written out early "
+                       "at any put, short write + error possible at every write-out); layer-0 lemmas in C20",
+                       "file system: tmp/ and new/ directory entries synchronous, one inode {len, synced}; fsync sets synced=len; "
+                       "crash_check() at the entry of every system call stub",
+                       "chdir/open/write-out/fsync/close/link/lseek/waitpid may fail (tape), read of any message byte may fail, "
+                       "name may exist (EEXIST) at every attempt, SIGALRM may arrive before any call after creation",
+                       "getpid/gethostname/time: concrete (4242, 'h', 1000000000 advanced by sleep); unlink never fails",
+                       STRERR, EXIT])
     return [
-        Obl("mbox_content", "mbox.c", progs=[local], repo=MBOX_UNITS,
-            lib=["ideal_substdio.c", "ideal_getln.c", "arena_stralloc.c"],
-            defines={"FAULTS": 0, "ARENA_CAP": 16, "ARENA_SLOTS": 2}, sysrename=MBOX_SYS,
-            grid=[{"N": n} for n in ns],
-            unwind=lambda p: {"mailfile": p["N"] + 2, "getln": p["N"] + 2, "gfrom": p["N"] + 2},
-            unwind_default=lambda p: 40 + p["N"],
-            backend="minisat", timeout=900,
-            claim="mbox round trip",
-            expect_witnesses=lambda p: ["delivered"] + (["partial_last_line"] if p["N"] >= 1 else [])
-                + (["from_line_quoted"] if p["N"] >= 5 else []) + (["gt_from_line_quoted", "from_on_second_line"] if p["N"] >= 6 else [])
-                + (["gtgt_from_line_quoted"] if p["N"] >= 7 else [])),
-        Obl("mbox_faults", "mbox.c", progs=[local], repo=MBOX_UNITS,
-            lib=["ideal_substdio.c", "ideal_getln.c", "arena_stralloc.c"],
-            defines={"FAULTS": 1, "ARENA_CAP": 16, "ARENA_SLOTS": 2}, sysrename=MBOX_SYS,
-            grid=[{"N": n} for n in ([0, 2, 6] if tier == "quick" else [0, 1, 2, 3, 5, 6, 7])],
+        Obl("mbox_content", "mbox.c", defines={"FAULTS": 0, "ARENA_CAP": 16, "ARENA_SLOTS": 2},
+            grid=[{"N": n} for n in (range(0, 9) if quick else range(0, 12))],
             unwind=lambda p: {"mailfile": p["N"] + 2, "getln": p["N"] + 2},
             unwind_default=lambda p: 40 + p["N"],
-            backend="cadical", timeout=900,
-            claim="mbox rollback",
+            backend="minisat", timeout=900 if quick else 3400,
+            assumes=["message of exactly N bytes, every byte value 0..255; ufline/rpline/dtline are the concrete lines "
+                     "'From s d', 'R: <s>', 'D: r' (shape of ufline for every sender: obligation ufline); no injected failure"],
+            outside=["messages longer than the grid (two From_ lines need 11 bytes: thorough tier only)",
+                     "chunking of reads/writes inside the real 1024-byte buffers (layer-0 lemma)"],
+            claim="the bytes mailfile() appends are split and unquoted by the mbox(5) reader (entry = From_ line .. next From_ "
+                  "line or EOF, final blank line stripped, one '>' removed from every >+From_ line) to exactly rpline + dtline + "
+                  "message (+ newline if the message lacked its final one); the entry starts with ufline, holds no other From_ "
+                  "line and ends with a blank line",
+            expect_witnesses=w_content, **mbox),
+        Obl("mbox_faults", "mbox.c", defines={"FAULTS": 1, "ARENA_CAP": 16, "ARENA_SLOTS": 2},
+            grid=[{"N": n} for n in ([0, 2, 6] if quick else [0, 1, 2, 3, 5, 6, 7])],
+            unwind=lambda p: {"mailfile": p["N"] + 2, "getln": p["N"] + 2},
+            unwind_default=lambda p: 40 + p["N"],
+            backend="cadical", timeout=900 if quick else 3400,
+            assumes=["message of exactly N symbolic bytes; one failing output operation at a symbolic position (any byte handed "
+                     "to the stream, the flush, the fsync), and/or a read error at a symbolic message position, a failing "
+                     "rewind or open; lock granted / never granted (alarm) / failing at once; mbox length at open and at lock "
+                     "time symbolic (0 <= len_open <= len_lock < 2^40); ftruncate and close do not fail"],
+            outside=["lock_ex failing for a reason other than the alarm: the code delivers unlocked and does not roll back "
+                     "(outside C12's fault list; only status 111 is demanded on those paths)",
+                     "two/three concurrent deliveries as schedules: reduced to the lock protocol (lock attempt before seek_end, "
+                     "all writes between lock and close, O_APPEND) given flock semantics", "NFS"],
+            claim="every failure ends in _exit(111), never in a normal return; after the lock was granted a failing write, "
+                  "flush, fsync or read is followed by ftruncate(fd, length at lock time) and nothing is written afterwards; "
+                  "lock timeout leaves the file untouched; lock_ex precedes seek_end, every write lies between the lock "
+                  "attempt and close and goes to the O_APPEND descriptor",
             expect_witnesses=["delivered", "write_failed_rolled_back", "read_failed_rolled_back", "lock_timeout",
-                              "unlocked_failure", "open_failed"]),
-        Obl("maildir_child", "maildir.c", progs=[local], repo=MDIR_UNITS, sysrename=MDIR_SYS,
-            defines={"SIDE": 0},
-            grid=[{"M": m, "ONEFAULT": 1} for m in (0, 1, 2)] + ([] if tier == "quick" else [{"M": m, "ONEFAULT": 0} for m in (0, 1, 2)]),
-            unwind_default=24, backend="minisat", timeout=900,
-            claim="maildir child",
-            ),
-        Obl("maildir_parent", "maildir.c", progs=[local], repo=MDIR_UNITS, sysrename=MDIR_SYS,
-            defines={"SIDE": 1, "M": 0},
-            grid=[{"ONEFAULT": 0}],
+                              "unlocked_failure", "open_failed"], **mbox),
+        Obl("maildir_child", "maildir.c", defines={"SIDE": 0}, std_checks=True,
+            grid=[{"M": m, "ONEFAULT": 1} for m in (0, 1, 2)] + [{"M": m, "ONEFAULT": 0} for m in ((0, 2) if quick else (0, 1, 2, 3, 4))],
+            unwind_default=24, backend="minisat", timeout=600,
+            assumes=["message of M bytes (lengths only); ONEFAULT=1: at most one injected failure / read error / SIGALRM, "
+                     "ONEFAULT=0: any number (tape of 20 calls); EEXIST at any subset of the open attempts in both modes"],
+            outside=["link() reporting EEXIST although it succeeded (NFS, see the comment in the code)", "a failing unlink",
+                     "real buffer boundaries (layer-0 lemma)"],
+            claim="at link(tmp,new): stream flushed, fsync and close succeeded after the last write, inode length = rpline + "
+                  "dtline + message read to EOF; at every crash instant: new/ entry exists => complete and synced, never "
+                  "written again; names are tmp|new/<time>.<pid>.<host> with the current time, created O_EXCL|O_CREAT under a "
+                  "timer <= 24 h, a name that existed is never unlinked; _exit(0) <=> linked (=> only, if SIGALRM hits after "
+                  "the link); every failure after creation: tmp unlinked, status != 0",
+            **mdir),
+        Obl("maildir_parent", "maildir.c", defines={"SIDE": 1, "M": 0}, grid=[{"ONEFAULT": 0}],
             unwind_default=24, backend="minisat", timeout=300,
-            claim="maildir parent",
-            ),
+            assumes=["fork fails or returns a pid; waitpid may be interrupted (EINTR) any number of times; wait status any value 0..65535"],
+            claim="maildir() returns iff the child exited with status 0 and no signal; fork failure, unseekable message and "
+                  "every other child status end in _exit(111) (temporary)",
+            **mdir),
         Obl("ufline", "ufline.c",
             progs=[Prog("qmail-local.c", main_as="local_main", cut=["checkhome", "bouncexf", "qmesearch"])],
-            repo=["sgetopt.c", "subgetopt.c", "myctime.c", "datetime.c", "fmt_str.c", "fmt_uint.c", "fmt_uint0.c",
-                  "fmt_ulong.c", "stralloc_cat.c", "stralloc_catb.c", "stralloc_cats.c", "stralloc_copy.c", "stralloc_opyb.c",
-                  "stralloc_opys.c", "stralloc_pend.c", "byte_copy.c", "byte_rchr.c", "str_chr.c", "str_rchr.c", "case_lowerb.c",
-                  "substdio.c"],
-            lib=["ideal_substdio.c", "arena_stralloc.c"],
+            repo=UF_UNITS, lib=["ideal_substdio.c", "arena_stralloc.c"],
             defines={"ARENA_CAP": 72, "ARENA_SLOTS": 8}, sysrename=["_exit", "umask", "chdir", "time", "strlen"],
-            grid=[{"S": n} for n in ([0, 1, 2, 3] if tier == "quick" else [0, 1, 2, 3, 4, 5])],
+            grid=[{"S": n} for n in (range(0, 7) if quick else range(0, 11))],
             unwind_default=lambda p: 64, backend="minisat", timeout=600,
-            claim="ufline",
+            functions=["qmail-local.c:main (first statement .. call of qmesearch)", "sgetopt.c", "subgetopt.c", "myctime.c:myctime",
+                       "datetime.c:datetime_tai", "fmt_uint.c", "fmt_uint0.c", "fmt_ulong.c", "fmt_str.c", "stralloc_*.c",
+                       "case_lowerb.c", "byte_rchr.c", "str_chr.c"],
+            cuts=["checkhome, bouncexf -> no-ops (C13 obligations qmesearch, bouncexf)",
+                  "qmesearch -> end of path; the stub inspects ufline",
+                  "quote2 -> copying stub (feeds rpline only; C13 obligation envelope_lines)"],
+            stubs=["env_init/env_put2: observing stubs (env.c allocates with symbolic sizes)",
+                   "strlen: returns S for the sender after checking that this is its length, scans every other string",
+                   "umask, chdir, sig_pipeignore: no-ops; time: concrete", STRERR, EXIT,
+                   "stralloc_ready/readyplus: arena (72 bytes)"],
+            assumes=["sender = S symbolic non-NUL bytes (every value, including space, tab, newline); the other arguments concrete"],
+            outside=["senders longer than the grid"],
+            claim="ufline = 'From ' + sender with space/tab/newline replaced by '-' (MAILER-DAEMON if empty) + ' ' + 24-character "
+                  "date + newline: one word, exactly one newline, at the end",
             expect_witnesses=lambda p: ["ufline_built"] + (["empty_sender"] if p["S"] == 0 else ["newline_in_sender"])
-                + (["space_tab_in_sender"] if p["S"] >= 2 else []),
-            ),
+                + (["space_tab_in_sender"] if p["S"] >= 2 else [])),
     ]
